@@ -86,7 +86,8 @@ Observed(st, e, o) ==
   IN [ step |-> e.step, conn |-> e.conn,
        req |-> IF proc THEN Head(qAfterRecv) ELSE e.req,
        given |-> e.req, proc |-> proc, sid |-> e.sid,
-       ret |-> o.ret, out |-> o.out, dead |-> {}, obsOK |-> TRUE ]
+       ret |-> o.ret, out |-> o.out, dead |-> {}, obsOK |-> TRUE,
+       paired |-> FALSE, fl |-> {}, out0 |-> NoOut, same0 |-> TRUE ]
 
 Bounded(st) ==
   /\ st.cur <= MaxSid /\ st.ucur <= MaxU
